@@ -67,7 +67,8 @@ impl Header {
     pub uninterp spec fn s_number(&self) -> u64;
     pub uninterp spec fn s_hash(&self) -> Seq<u8>;
     #[verifier::external_body]
-    pub fn raw(&self) -> (r: RawHeader) ensures r.s_number() == self.s_number() { unimplemented!() }
+    pub fn raw(&self) -> (r: RawHeader) ensures r.s_number() == self.s_number(), r == self.s_raw() { unimplemented!() }
+    pub uninterp spec fn s_raw(&self) -> RawHeader;
     #[verifier::external_body]
     pub fn calc_header_hash(&self) -> (r: Byte32) ensures r@ == self.s_hash() { unimplemented!() }
 }
